@@ -17,6 +17,8 @@ EXPLANATION = (
     "validio.rows, validio.validate, validate_rows + close} on ONE CID is interpreted from source with recording checks: "
     "within each operation every check must be reset before its first check_row / check_at_end of that operation. "
     "Together these give 'each run equals the run on a freshly loaded CID' for the shipped checks."
+    " Added in rounds 6 and 7: (O5.4c) cleanup() of a check leaves the bookkeeping alone: a late close() of an"
+    " abandoned validator must not wipe the state of the run in progress."
 )
 ASSUMPTIONS = ["third-party plugin checks implement reset() completely (the shipped example is checked)"]
 
